@@ -1,5 +1,6 @@
 import LeptosModel.Proofs.KeyedOrder
 import LeptosModel.Proofs.KeyedSummary
+import LeptosModel.Proofs.KeyedDetached
 /-!
 # `rebuild` keeps a mounted keyed list well-formed and — under `settledMonotone` — in order (C11)
 -/
@@ -14,6 +15,8 @@ structure Mounted (pre post : List NodeId) (s : KState) : Prop where
   nonempty : ∀ z ∈ somes s.w.storage, z.nodes ≠ []
   fresh : ∀ n ∈ s.w.kids, n < s.w.next
   bs_pos : 0 < s.bs
+  /-- `mount` has recorded the parent (`rebuild` updates the DOM) -/
+  has_parent : s.parent = true
 
 theorem foldl_erase_all (old : List Item) : (old.filter fun z => !old.contains z) = [] :=
   List.filter_eq_nil_iff.mpr (by intro a ha; simpa using ha)
@@ -34,13 +37,13 @@ theorem rebuild_mounted (D : List Key → List Key → Diff) (hD : DiffLike D) (
       have hst : s.w.storage = [] := by rw [hs.all_some, ho]; rfl
       have hd : D s.hashed [] = {} := by rw [hfe]; exact hD.nil_nil
       have : (rebuildWith D s []).w = { s.w with log := {} } := by
-        simp only [rebuildWith, hd]
+        rw [rebuildWith_w_of_parent D s [] hm.has_parent, hd]
         simp [applyDiff, unpackMoves, unpackLoop, hst]
       exact ⟨by rw [this]; exact hm.ordered, by rw [this]; exact hm.nodup,
-        by rw [this]; exact hm.nonempty, by rw [this]; exact hm.fresh, hm.bs_pos⟩
+        by rw [this]; exact hm.nonempty, by rw [this]; exact hm.fresh, hm.bs_pos, hm.has_parent⟩
     · have hd : D s.hashed [] = { clear := true } := hD.to_nil _ hfe
       have hwr : (rebuildWith D s []).w = clearPhase { s.w with log := {} } := by
-        simp only [rebuildWith, hd]; simp [applyDiff]
+        rw [rebuildWith_w_of_parent D s [] hm.has_parent, hd]; simp [applyDiff]
       have hcl := clearPhase_eq { s.w with log := {} } (somes s.w.storage) hw
       have hkids : (rebuildWith D s []).w.kids = pre ++ blocks [] ++ s.marker :: post := by
         rw [hwr, hcl]
@@ -48,7 +51,7 @@ theorem rebuild_mounted (D : List Key → List Key → Diff) (hD : DiffLike D) (
         rw [hk, unmount_fold_region pre post s.marker _ _ hkn hm.nonempty hold (fun x hx => hx),
           foldl_erase_all]
       have hst : (rebuildWith D s []).w.storage = [] := by rw [hwr, hcl]
-      refine ⟨?_, ?_, ?_, ?_, hm.bs_pos⟩
+      refine ⟨?_, ?_, ?_, ?_, hm.bs_pos, hm.has_parent⟩
       · rw [hkids, hst]; rfl
       · rw [hwr, hcl]; exact (unmount_fold_nodup _ hm.nodup).1
       · rw [hst]; intro z hz; simp [somes] at hz
@@ -57,7 +60,8 @@ theorem rebuild_mounted (D : List Key → List Key → Diff) (hD : DiffLike D) (
         exact hm.fresh n ((unmount_fold_nodup _ hm.nodup).2 n hn)
   · obtain ⟨rem, U, ads, c, hn, hU, heq⟩ := applyDiff_spec D hD s.hashed to (somes s.w.storage) hs.nodup hto
       hs.keys hte s.bs s.marker { s.w with log := {} } hw
-    have hwr : (rebuildWith D s to).w = pipeline s.bs s.marker to rem U ads ads.length { s.w with log := {} } := heq
+    have hwr : (rebuildWith D s to).w = pipeline s.bs s.marker to rem U ads ads.length { s.w with log := {} } :=
+      (rebuildWith_w_of_parent D s to hm.has_parent).trans heq
     obtain ⟨hord, hnd'⟩ := c.dom_order hn hU hsm s.bs s.marker { s.w with log := {} } pre post hw hk
       hm.nodup hm.nonempty hm.fresh hm.bs_pos
     have hcl := c.pipeline_closed hn s.bs s.marker { s.w with log := {} } hw
@@ -88,7 +92,7 @@ theorem rebuild_mounted (D : List Key → List Key → Diff) (hD : DiffLike D) (
       rcases hitems z hz with h | ⟨j, h⟩
       · exact hm.nonempty z h
       · exact (addPlacements_nodes h).2.2 hm.bs_pos
-    refine ⟨by rw [hwr]; exact hord, by rw [hwr]; exact hnd', hnonempty, ?_, hm.bs_pos⟩
+    refine ⟨by rw [hwr]; exact hord, by rw [hwr]; exact hnd', hnonempty, ?_, hm.bs_pos, hm.has_parent⟩
     intro n hn'
     rw [hnext]
     have hord' : (rebuildWith D s to).w.kids
@@ -109,13 +113,14 @@ theorem rebuild_mounted (D : List Key → List Key → Diff) (hD : DiffLike D) (
     · exact hlt_old n (by rw [hk]; simp [hp])
 
 theorem mem_place1 {marker : NodeId} {kids : List NodeId} {st : List (Option Item)} {p : Nat} {x : Item}
-    {n : NodeId} : n ∈ place1 marker kids st p x ↔ n ∈ x.nodes ∨ n ∈ kids := by
-  unfold place1
-  cases nextMounted st p with
-  | none => exact mem_mountItem
+    {n : NodeId} (h : n ∈ place1 marker kids st p x) : n ∈ x.nodes ∨ n ∈ kids := by
+  unfold place1 at h
+  cases hn : nextMounted st p with
+  | none => rw [hn] at h; exact mem_mountItem h
   | some y =>
-    simp only [insertBeforeThisOrMarker]
-    cases y.nodes.head? <;> exact mem_mountItem
+    rw [hn] at h
+    simp only [insertBeforeThisOrMarker] at h
+    cases hy : y.nodes.head? <;> rw [hy] at h <;> exact mem_mountItem h
 
 theorem mem_placeAll {marker : NodeId} : ∀ (P : List (Nat × Item)) (ks : List NodeId × List (Option Item))
     {n : NodeId}, n ∈ (placeAll marker P ks).1 → n ∈ ks.1 ∨ ∃ q ∈ P, n ∈ q.2.nodes
@@ -124,7 +129,7 @@ theorem mem_placeAll {marker : NodeId} : ∀ (P : List (Nat × Item)) (ks : List
     have := mem_placeAll P (placeStep marker ks q) (by simpa [placeAll] using h)
     rcases this with h1 | ⟨q', hq', hn⟩
     · simp only [placeStep] at h1
-      rcases mem_place1.mp h1 with h2 | h2
+      rcases mem_place1 h1 with h2 | h2
       · exact Or.inr ⟨q, by simp, h2⟩
       · exact Or.inl h2
     · exact Or.inr ⟨q', by simp [hq'], hn⟩
@@ -163,13 +168,14 @@ theorem rebuild_removed_nodes_leave (D : List Key → List Key → Diff) (hD : D
       rw [this] at hr; simp at hr
     have hd : D s.hashed [] = { clear := true } := hD.to_nil _ hfe
     have hwr : (rebuildWith D s []).w = clearPhase { s.w with log := {} } := by
-      simp only [rebuildWith, hd]; simp [applyDiff]
+      rw [rebuildWith_w_of_parent D s [] hm.has_parent, hd]; simp [applyDiff]
     rw [hwr, clearPhase_eq { s.w with log := {} } (somes s.w.storage) hw]
     intro h
     exact (mem_unmount_fold _ hm.nodup h).2 r hr hn
   · obtain ⟨rem, U, ads, c, hnm, _, heq⟩ := applyDiff_spec D hD s.hashed to (somes s.w.storage) hs.nodup hto
       hs.keys hte s.bs s.marker { s.w with log := {} } hw
-    have hwr : (rebuildWith D s to).w = pipeline s.bs s.marker to rem U ads ads.length { s.w with log := {} } := heq
+    have hwr : (rebuildWith D s to).w = pipeline s.bs s.marker to rem U ads ads.length { s.w with log := {} } :=
+      (rebuildWith_w_of_parent D s to hm.has_parent).trans heq
     rw [hwr, c.pipeline_closed hnm s.bs s.marker { s.w with log := {} } hw]
     simp only
     intro h
